@@ -458,6 +458,24 @@ theorem use_ops_gate_kw (o : Oracle) (c : KwCtor) (op : KwOp) (k : Key) (kw : Ke
 
 /-! ## allowlist_first -/
 
+/-- **jws_alg_selection.**  The algorithm of a signature entry — the one the allow-list is asked
+    about, the one the stock key finder builds the key with — is the protected header's `alg` when
+    that is non-empty (an unprotected `alg` cannot override it), and the unprotected header's `alg`
+    when there is no protected header or it carries no `alg`; "" when neither has one. -/
+theorem jws_alg_selection (s : SigEntry) :
+    (∀ a, s.protectedAlg = some a → a ≠ "" → s.alg = a) ∧
+    ((s.protectedAlg = none ∨ s.protectedAlg = some "") → s.alg = s.headerAlg.getD "") := by
+  obtain ⟨p, h, n⟩ := s
+  constructor
+  · intro a hp ha
+    simp only at hp; subst hp
+    simp only [SigEntry.alg]
+    have : ¬ a = jwa.SignatureAlgorithmUnknown := ha
+    simp [this]
+  · intro hp
+    simp only at hp
+    rcases hp with rfl | rfl <;> cases h <;> simp [SigEntry.alg, jwa.SignatureAlgorithmUnknown]
+
 theorem jwsVerifyFrom_ok (o : Oracle) (av : AlgVerifier) (find : SigEntry → PO SigningKey)
     (sigs : List SigEntry) (j i : Nat) (h : (jwsVerifyFrom av find j sigs).run o = .ok i) :
     j ≤ i ∧ ∃ s, sigs[i - j]? = some s ∧ s.alg ≠ "" ∧ av.ok s.alg = true ∧
@@ -495,7 +513,7 @@ theorem jwsVerifyFrom_ok (o : Oracle) (av : AlgVerifier) (find : SigEntry → PO
       · simp only [h2, Bool.not_false, ↓reduceIte] at h; exact step h
 
 /-- **allowlist_first (JWS).**  If `Verifier.Verify` accepts, the accepted signature's algorithm
-    (protected header first, unprotected header only when there is no protected header) is not the
+    (`SigEntry.alg`: protected alg if non-empty, else unprotected alg — `jws_alg_selection`) is not the
     empty string, passed the caller's `AlgorithmVerifier`, and the key the finder returned for that
     very entry verified its signature. -/
 theorem allowlist_first_jws (o : Oracle) (av : AlgVerifier) (find : SigEntry → PO SigningKey)
@@ -1114,7 +1132,17 @@ def hsFinder : SigEntry → PO SigningKey := jwsJWKKeyFinder (some (KeyKind.toKe
 example : (jwsVerify (.allowed ["HS256"]) hsFinder [⟨some "HS256", none, 32⟩]).run yes = .ok 0 := rfl
 example : (jwsVerify (.allowed ["RS256"]) hsFinder [⟨some "HS256", none, 32⟩]).run yes
     = .err "verify-failed" := rfl
-example : (jwsVerify .any hsFinder [⟨some "", some "HS256", 32⟩]).run yes = .err "verify-failed" := rfl
+-- a protected header without alg falls back to the unprotected header's alg, which must then be allowed
+example : (jwsVerify .any hsFinder [⟨some "", some "HS256", 32⟩]).run yes = .ok 0 := rfl
+example : (jwsVerify (.allowed ["HS256"]) hsFinder [⟨some "", some "HS256", 32⟩]).run yes = .ok 0 := rfl
+example : (jwsVerify (.allowed ["RS256"]) hsFinder [⟨some "", some "HS256", 32⟩]).run yes
+    = .err "verify-failed" := rfl
+-- a non-empty protected alg wins: the unprotected header cannot smuggle in an allowed name
+example : (jwsVerify (.allowed ["none"]) hsFinder [⟨some "HS256", some "none", 32⟩]).run yes
+    = .err "verify-failed" := rfl
+-- no alg anywhere: skipped even by UnsecureAnyAlgorithm
+example : (jwsVerify .any hsFinder [⟨some "", some "", 32⟩, ⟨some "", none, 32⟩, ⟨none, none, 32⟩]).run yes
+    = .err "verify-failed" := rfl
 example : (jwsVerify .any hsFinder [⟨none, some "HS256", 32⟩]).run yes = .ok 0 := rfl
 example : (jwsVerify (.allowed ["HS256"]) hsFinder [⟨some "none", none, 0⟩, ⟨some "HS256", none, 32⟩]).run yes
     = .ok 1 := rfl
